@@ -240,12 +240,7 @@ Definition cmd_cls (kind ops : bytes) : bytes :=
     | Some h =>
       match first_sens kd [] h with
       | None => str "none"
-      | Some None => str "C16-tablelike-placeholder"
-      | Some (Some o) =>
-        match kd, o with
-        | KInlineTL, (MGet _ | MGetM _ | MIter | MIterM) => str "C16-tablelike-placeholder"
-        | _, _ => str "C16-placeholder-residue"
-        end
+      | Some _ => str "C16-placeholder-residue"
       end
     end
   | None => str "none"
